@@ -723,7 +723,7 @@ def stage_corr_lens(ctx):
         if kcase % 3 == 2:
             th = dict(kind="lens_uneq", lens_angle=u(rng, 0.3, 1.0), ntheta=rng.choice([2, 3]), nphi=rng.choice([4, 5]))
         else:
-            n = rng.choice([3, 4])
+            n = rng.choice([3, 5, 5])  # odd: a 4-node ring is blind to the sign of pol_angle in cos^2(phi' -+ pol_angle)
             th = dict(kind="lens_grid", lens_angle=u(rng, 0.3, 1.0), ntheta=n, nphi=n)
         det = gen_points(rng, scat["center"], 0.05, 3.0, 2)
         spec = dict(theory=th, scat=scat, det=det, optics=optics)
